@@ -72,6 +72,10 @@ CHECKS = {
     text="For every entity class with a documented stanza (57 repository fixtures + hand-written templates for ~45 classes without fixture) the documented stanza becomes a template whose non-discriminator attributes are unconstrained z3 strings / integers (list children 0..3, optional attributes dropped); symbolic execution of fromProtocolTreeNode + toProtocolTreeNode must reproduce the template for all values (classes built from incoming stanzas), and stanzas of sendable classes (built through the constructor with symbolic arguments) must satisfy the codec's typing contract; every path witness also goes through the real encoder/decoder.",
     note="Trusted: template catalogue (documented shapes, discriminators kept concrete, repeated fields tied, sibling jids distinct), engine string model (z3 Strings), z3. The protobuf payload of message stanzas is opaque here (C10).",
     technique="symbolic execution of each entity class's parser/serialiser on stanza templates with z3 string/integer variables; concrete replay of every model"),
+ "C03": dict(cat="model_checking", design="4/C03",
+    text="STEP OBLIGATIONS ONLY (the end-to-end clause over real ratchets is not claimed). python-axolotl is replaced at the AxolotlManager boundary by an ideal-functionality stub; the real AxolotlSendLayer / AxolotlReceivelayer / AxolotlControlLayer with the message and media layers on top run symbolically: 1:1 send with/without session, group send with and without sender key (group-info and key requests first), retry-queue bound, every decrypt outcome (ok / duplicate / invalid message / invalid key id / no session / untrusted) x envelope type x payload kind (text, key-distribution only, both), retry receipt -> re-encryption of the queued original. Message body is a blob of symbolic length whose term must not occur in anything sent down outside an envelope term (taint check); ids and JIDs are z3 strings. The real manager's padding code is proved to round-trip for every message and pad length 1..255.",
+    note="Trusted / outside: the real Signal ratchets, stores and restarts under whole conversations (NOT claimed); python-axolotl's AESCipher cannot round-trip block-aligned plaintext (1 in 16 randomly padded messages), recorded as an observation about the external library. Received plaintexts are concrete protobuf messages.",
+    technique="symbolic execution of the real encryption layers under an ideal-functionality manager stub (z3 strings, symbolic-length ropes, term taint check); concrete replay"),
  "C05": dict(cat="model_checking", design="4/C05",
     text="Bounded symbolic execution of the real YowNoiseSegmentsLayer: frame lengths (1..2^24-1 each), payload contents and every chunk cut position are solver variables; z3 decides each path. Covers all streams of <=3 frames in <=3 chunks (quick) / <=4 frames in <=5 chunks (thorough), an inductive step from an arbitrary buffered prefix, and every outgoing length 0..2^25. Every path's model is replayed on the uninstrumented layer.",
     note="Trusted: CPython semantics of everything but the hooked constructs; sx engine models of struct.pack/unpack and bytearray slicing (self-validated); z3. Payload bytes are abstract (the layer only moves them). Longer streams rest on the step harness plus the checked assumption that the layer's only state is its read buffer.",
